@@ -233,7 +233,7 @@ bool FIXReader::read(f8String& to)	// read a complete FIX message
 			if (tag[0] != '8' || tag[1])
 				throw IllegalMessage(to, FILE_LINE);
 
-			if (_session.get_ctx()._beginStr.compare(val))	// invalid FIX version
+			if (result - 3 != _session.get_ctx()._beginStr.size() || _session.get_ctx()._beginStr.compare(val))	// invalid FIX version ("8=" value SOH)
 				throw InvalidVersion(string(val));
 
 			if ((result = MessageBase::extract_element(to.data() + result, static_cast<unsigned>(to.size()) - result, tag, val, sizeof(tag), sizeof(val))))
